@@ -54,6 +54,15 @@ def family(ctx):
         "cfg unwind=1 m=1 | T0: anew 0; spawn 1; lock 0; join 1; unlock 0; adrop 0 | T1: lock 0; unlock 0",
         "cfg unwind=1 m=1 | T0: spawn 1; lock 0; join 1; unlock 0 | T1: lock 0; unlock 0",
         "cfg unwind=1 m=1 | T0: tnew 0; spawn 1; lock 0; join 1; unlock 0; tdrop 0 | T1: lock 0; unlock 0",
+        # values owned by the execution (thread-locals whose destructor performs a loom operation, lazy statics) alive
+        # when an iteration fails (finding F28: repaired)
+        "cfg unwind=1 tlsdtor=1 x=1 | T0: tls 0; panic",
+        "cfg unwind=1 tlsdtor=1 x=1 | T0: spawn 1; tls 1; join 1 | T1: tls 0; panic",
+        "cfg unwind=1 tlsdtor=1 x=1 | T0: spawn 1; join 1; panic | T1: tls 0",
+        "cfg unwind=1 tlsdtor=1 x=1 m=2 | T0: spawn 1; tls 0; lock 0; lock 1; unlock 1; unlock 0; join 1 | T1: tls 1; lock 1; lock 0; unlock 0; unlock 1",
+        "cfg unwind=1 tlsdtor=2 | T0: tls 0; tls 1; panic",
+        "cfg unwind=1 x=1 | T0: lazy 0; panic",
+        "cfg unwind=1 x=1 | T0: spawn 1; lazy 0; join 1 | T1: lazy 1; panic",
         # the failure is raised in the thread that owns the resource (findings F8, F12, F13: repaired)
         "cfg unwind=1 n=1 | T0: anew 0; nwait 0",
         "cfg unwind=1 n=1 | T0: tnew 0; nwait 0",
@@ -98,7 +107,9 @@ def run(ctx):
                            "first failing iteration")
     ctx.cov["rule"] = ("programs over every object kind with a user panic inserted at every position of every thread "
                        "(sampled by seed), run with unwinding that drops the panicking thread's guards and handles, plus "
-                       "loom-raised failures (deadlock, race, branch limit) with guards/handles alive; the run must end "
+                       "loom-raised failures (deadlock, race, branch limit at every limit below the need) with guards/handles, thread-"
+                       "locals with loom-using destructors and lazy statics alive (plus native scenarios: a lazy static / thread-"
+                       "local holding a loom Arc); the run must end "
                        "with a panic iff some reference execution fails, with a class the reference has; the process must "
                        "survive; every later program in the same process must still match the twin; non-trivial = the "
                        "failure is not in the first iteration or the program has ≥ 2 iterations")
@@ -152,6 +163,22 @@ def run(ctx):
                              f"execution, the branch-limit panic must be raised (a model that spins would hang instead)"))
         if done[1] != "ok" and len(its) > 1 and len(ctx.cov["samples"]) < 4:
             ctx.sample({"program": p, "fails_in_iteration": len(its), "with": done[1]})
+    # scenarios the DSL cannot express (harness `native`): a lazy static / a thread-local HOLDING a loom Arc while the
+    # iteration fails; one process per scenario; the failure must unwind to the caller and a later model must run
+    import subprocess
+    scen = subprocess.run([lvlib.HARNESS_BIN, "native", "list"], stdout=subprocess.PIPE, text=True).stdout.split()
+    for sc in scen:
+        r = subprocess.run([lvlib.HARNESS_BIN, "native", sc], stdout=subprocess.PIPE, stderr=subprocess.DEVNULL, text=True)
+        ctx.cov["evaluations"] += 1
+        ctx.cov["traces_validated_against_impl"] += 1
+        want = "ok" if sc.endswith("_ok") else "panic:boom"
+        lines = r.stdout.split("\n")
+        if r.returncode != 0:
+            failures.append((f"native:{sc}", "abort", f"abort(rc={r.returncode}): the process dies instead of reporting the failure "
+                             f"(harness/src/native.rs, scenario {sc})"))
+        elif f"NATIVE {sc} {want}" not in lines or f"NATIVE-AFTER {sc} ok" not in lines:
+            failures.append((f"native:{sc}", "forbidden", f"expected `{want}` and a clean model afterwards, got {lines[:2]}"))
+    ctx.cov["native_scenarios"] = len(scen)
     unlisted = ctx.attribute(failures, differing)
     if dis and not unlisted:
         for d in dis[:3]:
